@@ -133,10 +133,7 @@ def parseChain (s : String) : List Desc :=
     in writable ones (by position in the respective flat area); descriptors that do not lie inside
     one region are left alone -/
 def initMem (lay : Layout) (chain : List Desc) : Mem :=
-  let m0 : Mem := fun r =>
-    match lay.find? (fun x => x.1 == r) with
-    | some (_, _, size) => List.replicate size CANARY
-    | none => []
+  let m0 : Mem := ⟨lay.map fun (r, _, size) => (r, List.replicate size CANARY)⟩
   let (m, _, _) := chain.foldl (fun (st : Mem × Nat × Nat) d =>
     let (m, rp, wp) := st
     match findRegion lay d.addr with
@@ -160,7 +157,7 @@ def showInit (r : Except IoErr IoBufs) : String :=
 
 def finish (st0 : St) (regions : List Nat) (ops : List Op) (pre : String) : String :=
   let (st, obs) := run st0 ops
-  let diff := regions.foldl (fun acc r => acc ++ diffRegion r (st0.w.mem r) (st.w.mem r)) []
+  let diff := regions.foldl (fun acc r => acc ++ diffRegion r (st0.w.mem.get r) (st.w.mem.get r)) []
   pre ++ " ops=" ++ ";".intercalate (obs.map showObs) ++ " mem=" ++ ",".intercalate diff
     ++ " dirty=" ++ showDirty st.w.dirty ++ " fin=" ++ showCounters st
 
@@ -212,10 +209,8 @@ def runLine (line : String) : String :=
   if t == "fusedev" then
     let req := getNatD kv "req"
     let cap := getNatD kv "cap"
-    let mem : Mem := fun r =>
-      if r == 1 then (List.range req).map rfill
-      else if r == 2 then List.replicate GUARD CANARY ++ (List.range cap).map wfill ++ List.replicate GUARD CANARY
-      else []
+    let mem : Mem := ⟨[(1, (List.range req).map rfill),
+      (2, List.replicate GUARD CANARY ++ (List.range cap).map wfill ++ List.replicate GUARD CANARY)]⟩
     let st0 : St := { w := { p := 4096, mem := mem, dirty := [], log := [], fd := [] },
                       readers := [{ segs := [{ region := 1, off := 0, len := req }], consumed := 0 }],
                       writers := [], fws := [FuseW.new 2 GUARD cap] }
